@@ -81,6 +81,12 @@ def inject(w, c, fault):
             c.remote.send(W.build_msg({"k": "DWR", "host": c.host or "peer1.example", "hbh": 0xee01, "e2e": 0xee01}))
             c.in_frames.append(W.Frame(w.k.now, W.build_msg({"k": "DWR", "host": c.host or "peer1.example", "hbh": 0xee01, "e2e": 0xee01})))
         w.run()
+        if not c.node_closed:
+            # nothing was written (the DWR completed a frame begun earlier and was not seen as a message): the peer,
+            # which is gone as far as this history goes, closes its end - it must not stay behind as a second,
+            # open connection of its host (the known two-connections domain of C12 / C13)
+            c.remote.close()
+            w.run()
         c.peer_closed = True
     w.run()
 
